@@ -40,7 +40,13 @@ def gen(rng, tier):
             'D': np.round(rng.uniform(-1, 1, (a, b)), 1).tolist(),
             'W': np.round(rng.uniform(0.5, 2, (a, b)), 1).tolist(),
             'spell': SPELL[int(rng.integers(len(SPELL)))],
-            'adapt_how': int(rng.integers(3)), 'late_rvar': bool(rng.random() < 0.35)}
+            'adapt_how': int(rng.integers(3)), 'late_rvar': bool(rng.random() < 0.35),
+            # the random variables declared in two blocks, the second one after a set with
+            # auxiliary columns (a 1-norm ball on the first block) was compiled
+            'split_z': int(rng.integers(1, nz)) if rng.random() < 0.45 else 0,
+            'static_only': bool(rng.random() < 0.6),      # (with split_z and static_row: no rule)
+            # a static variable s >= g.z (no rule in the row), added to the objective
+            'static_row': np.round(rng.uniform(-2, 2, nz), 1).tolist() if rng.random() < 0.5 else None}
 
 
 def closed_form(spec):
@@ -52,12 +58,85 @@ def closed_form(spec):
     wc = np.maximum(Cc * lo, Cc * hi)                 # worst case of C_ijk z_k over [lo_k, hi_k]
     const = float((W * (D + (wc * (1 - mk)).sum(axis=2))).sum())
     g = (W[:, :, None] * Cc * mk).sum(axis=(0, 1))
-    return const + float(np.maximum(g * lo, g * hi).sum())
+    out = const + float(np.maximum(g * lo, g * hi).sum())
+    if spec.get('static_row'):
+        gs = np.array(spec['static_row'], float)
+        out += float(np.maximum(gs * lo, gs * hi).sum())
+    return out
+
+
+def _run_static(spec, ctx, exact):
+    """No rule at all: static rows  s0 >= g.z  and  s1 >= (h*x).z  (x pinned), random variables in
+    two blocks with a compiled norm set in between."""
+    import rsome as rso
+    from rsome import ro
+    nz, nsp = spec['nz'], int(spec['split_z'])
+    g = np.array(spec['static_row'], float)
+    h = np.array(spec['C'], float)[0, 0, :]
+    xp = float(spec['D'][0][0]) + 1.5
+    lo, hi = np.array(spec['lo']), np.array(spec['hi'])
+    feats = {'class': 'matrule-static', 'nz': nz, 'split': nsp, 'set_form': spec.get('set_form', 0),
+             'spell': spec['spell']}
+    sig = '|'.join('%s=%s' % (k, feats[k]) for k in sorted(feats))
+    try:
+        m = ro.Model()
+        z1 = m.rvar(nsp)
+        x = m.dvar()
+        (x + z1.sum() <= 7.0).forall(rso.norm(z1, 1) <= 1.0)        # compiled, never added
+        z2 = m.rvar(nz - nsp)
+        sv = m.dvar(2)
+        if spec.get('set_form', 0) == 1:
+            zl = [z1[k] for k in range(nsp)] + [z2[k] for k in range(nz - nsp)]
+            uset = [zl[k] >= float(lo[k]) for k in range(nz)] + [zl[k] <= float(hi[k]) for k in range(nz)]
+        else:
+            uset = [z1 >= lo[:nsp], z1 <= hi[:nsp], -z2 <= -lo[nsp:], hi[nsp:] >= z2]
+        r0 = g[:nsp] @ z1 + g[nsp:] @ z2
+        if spec['spell'] in ('plain', 'rows', 'cols', 'entries'):
+            r1 = (h[:nsp] * x) @ z1 + x * (h[nsp:] @ z2)
+        else:
+            r1 = (h[:nsp] @ z1) * x + (z2 * h[nsp:]).sum() * x
+        m.minmax(sv.sum(), uset)
+        m.st(sv[0] >= r0, sv[1] >= r1, x == xp)
+        m.do_math()
+        C.solve(m, 'def')
+    except Exception as e:
+        ctx.count('matrule_static_rsome_raises:%s' % type(e).__name__)
+        return {'status': 'skip', 'reason': 'rsome raised: %s: %s' % (type(e).__name__, str(e)[:60])}
+    if not C.optimal(m):
+        st = str(getattr(m.solution, 'status', None))
+        if C.definitive_failure('def', st):
+            return {'status': 'violation', 'mechanism': 'matrule:status_mismatch',
+                    'detail': {'what': 'feasible bounded model reported infeasible/unbounded',
+                               'status': st}, 'features': feats, 'sig': sig, 'nontrivial': True}
+        return {'status': 'skip', 'reason': 'not optimal'}
+    ctx.count('matrule_static_models_solved')
+    s_ = np.asarray(sv.get(), float).reshape(2)
+    w0 = float(np.maximum(g * lo, g * hi).sum())
+    w1 = float(np.maximum(h * xp * lo, h * xp * hi).sum())
+    val = float(m.get())
+    tol = 1e-6 * (1 + abs(w0) + abs(w1))
+    detail = []
+    if s_[0] < w0 - tol or s_[1] < w1 - tol:
+        detail.append({'what': 'robust row violated', 'entry': 'static rows', 's': s_.tolist(),
+                       'worst_case_of_the_right_hand_sides': [w0, w1]})
+    if val < w0 + w1 - tol:
+        detail.append({'what': 'reported optimum is below the least attainable value',
+                       'reported': val, 'attainable': w0 + w1})
+    elif exact and val > w0 + w1 + tol:
+        detail.append({'what': 'optimum differs from the closed form', 'reported': val,
+                       'closed_form': w0 + w1})
+    if detail:
+        return {'status': 'violation', 'mechanism': 'matrule:' + detail[0]['what'][:40],
+                'detail': detail[:3], 'features': feats, 'sig': sig, 'nontrivial': True}
+    return {'status': 'held', 'features': feats, 'sig': sig, 'nontrivial': True,
+            'observed': {'value': val, 'closed_form': w0 + w1}}
 
 
 def run(spec, ctx, exact=False):
     import rsome as rso
     from rsome import ro
+    if spec.get('split_z') and spec.get('static_row') and spec.get('static_only'):
+        return _run_static(spec, ctx, exact)
     a, b, nz = spec['a'], spec['b'], spec['nz']
     Cc = np.array(spec['C'], float)
     D = np.array(spec['D'], float)
@@ -65,11 +144,22 @@ def run(spec, ctx, exact=False):
     mk = np.array(spec['mask'])
     feats = {'class': 'matrule', 'shape': '%dx%d' % (a, b), 'nz': nz, 'spell': spec['spell'],
              'mask': 'full' if mk.all() else 'partial', 'adapt_how': spec['adapt_how'],
-             'late_rvar': spec['late_rvar']}
+             'late_rvar': spec['late_rvar'], 'split_z': bool(spec.get('split_z')),
+             'static_row': bool(spec.get('static_row'))}
     sig = '|'.join('%s=%s' % (k, feats[k]) for k in sorted(feats))
     try:
         m = ro.Model()
-        z = m.rvar(nz)
+        nsp = int(spec.get('split_z', 0))
+        if nsp:
+            z1 = m.rvar(nsp)
+            x0 = m.dvar()
+            (x0 + z1.sum() <= 7.0).forall(rso.norm(z1, 1) <= 1.0)    # compiled, never added
+            z2 = m.rvar(nz - nsp)
+            zblocks = [z1, z2]
+            z = [z1[k] for k in range(nsp)] + [z2[k] for k in range(nz - nsp)]
+        else:
+            z = m.rvar(nz)
+            zblocks = [z]
         y = m.ldr((a, b))
         how = spec['adapt_how']
         late_done = [not spec['late_rvar']]
@@ -83,8 +173,9 @@ def run(spec, ctx, exact=False):
                 late_done[0] = True
 
         if mk.all() and how == 0:
-            y.adapt(z)
-            adapted()
+            for zb in zblocks:
+                y.adapt(zb)
+                adapted()
         else:
             for i in range(a):
                 for j in range(b):
@@ -92,8 +183,9 @@ def run(spec, ctx, exact=False):
                     if not ks:
                         continue
                     if how == 1 and len(ks) == nz:
-                        y[i, j].adapt(z)
-                        adapted()
+                        for zb in zblocks:
+                            y[i, j].adapt(zb)
+                            adapted()
                     else:
                         for k in ks:
                             y[i, j].adapt(z[k])
@@ -102,10 +194,12 @@ def run(spec, ctx, exact=False):
             m.rvar(2)
         lo, hi = np.array(spec.get('lo', [-1.0] * nz)), np.array(spec.get('hi', [1.0] * nz))
         sf = spec.get('set_form', 0)
-        if sf == 0:
-            uset = (z >= lo, z <= hi)
-        elif sf == 1:
+        if sf == 1 or nsp:
             uset = [z[k] >= float(lo[k]) for k in range(nz)] + [z[k] <= float(hi[k]) for k in range(nz)]
+            if nsp and sf != 1:
+                uset = [z1 >= lo[:nsp], z1 <= hi[:nsp], -z2 <= -lo[nsp:], hi[nsp:] >= z2]
+        elif sf == 0:
+            uset = (z >= lo, z <= hi)
         else:
             uset = (-z <= -lo, hi >= z)
         rhs = D
@@ -128,7 +222,17 @@ def run(spec, ctx, exact=False):
             cons = [-(y.T) <= -(rhs.T)]
         else:
             cons = [y[i, j] >= rhs[i, j] for i in range(a) for j in range(b)]
-        m.minmax((W * y).sum(), uset)
+        sv = None
+        if spec.get('static_row'):
+            gs = np.array(spec['static_row'], float)
+            sv = m.dvar()
+            srow = gs[0] * z[0]
+            for k in range(1, nz):
+                srow = srow + gs[k] * z[k]
+            cons = cons + [sv >= srow]
+            m.minmax((W * y).sum() + sv, uset)
+        else:
+            m.minmax((W * y).sum(), uset)
         m.st(cons)
         m.st(y <= 50, y >= -50)
         m.do_math()
@@ -145,14 +249,20 @@ def run(spec, ctx, exact=False):
         return {'status': 'skip', 'reason': 'not optimal'}
     ctx.count('matrule_models_solved')
     y0 = np.asarray(y.get(), float).reshape(a, b)
-    Y = np.nan_to_num(np.asarray(y.get(z), float).reshape(a, b, nz), nan=0.0)
+    Y = np.concatenate([np.nan_to_num(np.asarray(y.get(zb), float).reshape(a, b, -1), nan=0.0)
+                        for zb in zblocks], axis=2)
     val = float(m.get())
     tol = 1e-6 * (1 + np.abs(Cc).sum() + np.abs(D).max())
     detail = []
     worst_obj = -np.inf
     lo, hi = np.array(spec.get('lo', [-1.0] * nz)), np.array(spec.get('hi', [1.0] * nz))
+    s_val = float(sv.get()) if sv is not None else 0.0
     for v in itertools.product(*zip(lo, hi)):
         zv = np.array(v)
+        if sv is not None and float(np.array(spec['static_row']) @ zv) > s_val + tol and not detail:
+            detail.append({'what': 'robust row violated', 'entry': 'static row s >= g.z',
+                           'z': zv.tolist(), 's': s_val,
+                           'needed': float(np.array(spec['static_row']) @ zv)})
         yv = y0 + Y @ zv
         need = D + Cc @ zv
         gap = need - yv
@@ -160,7 +270,7 @@ def run(spec, ctx, exact=False):
             i, j = np.unravel_index(np.argmax(gap), gap.shape)
             detail.append({'what': 'robust row violated', 'entry': [int(i), int(j)],
                            'z': zv.tolist(), 'y': float(yv[i, j]), 'needed': float(need[i, j])})
-        worst_obj = max(worst_obj, float((W * yv).sum()))
+        worst_obj = max(worst_obj, float((W * yv).sum()) + s_val)
     if worst_obj > val + 1e-6 * (1 + abs(val)):
         detail.append({'what': 'reported objective is not a bound on the objective',
                        'reported': val, 'worst_case': worst_obj})
